@@ -287,7 +287,7 @@ def run_check(prop, pid, tier, seed):
                             isinstance(v, float) and (v != v or abs(v) > 1e300) for o in c_.ops for v in o[2:] if o[0] in ("n", "b", "i", "j")):
                         c_.dump = ()
                 from props.util import aux_clone_cases, aux_bigperiod_cases
-                aux = aux_clone_cases() if not getattr(prop, "no_aux", False) else []
+                aux = aux_clone_cases() if not (getattr(prop, "no_aux", False) or getattr(prop, "no_aux_clone", False)) else []
                 if getattr(prop, "aux_big", False):      # the properties about windowed values (costly: O(period) per model step)
                     aux += aux_bigperiod_cases()
                 ctx.stats["aux_t1_only_cases"] = len(aux)
